@@ -46,3 +46,34 @@ def _v5(repo, mod):
 def _v7(repo, mod):
     fn = repo.func(TS, "TypeSystem.is_subtype")
     return insert_before(mod, fn.body[-1], "_unused = left")
+
+
+MODM = "pynguin.analyses.module"
+
+
+@variant("C25", "strict-union-shortcut-uses-lenient-relation", TS, "C25.union-target", "is_subtype recurses with is_maybe_subtype for union targets (copy-paste from the twin)")
+def _v30(repo, mod):
+    fn = repo.func(TS, "TypeSystem.is_subtype")
+    c = find_node(fn, lambda n: isinstance(n, ast.Call) and norm(n.func) == "self.is_subtype" and "right_elem" in norm(n))
+    return replace_node(mod, c.func, "self.is_maybe_subtype")
+
+
+@variant("C25", "lenient-union-shortcut-uses-strict-relation", TS, "C25.union-target", "is_maybe_subtype recurses with is_subtype for union targets")
+def _v31(repo, mod):
+    fn = repo.func(TS, "TypeSystem.is_maybe_subtype")
+    c = find_node(fn, lambda n: isinstance(n, ast.Call) and norm(n.func) == "self.is_maybe_subtype" and "right_elem" in norm(n))
+    return replace_node(mod, c.func, "self.is_subtype")
+
+
+@variant("C25", "edges-from-inherited-orig-bases", MODM, "C25.edges", "subclass edges drawn from getattr(cls, '__orig_bases__', ...)")
+def _v32(repo, mod):
+    fn = repo.func(MODM, "__analyse_included_classes")
+    lp = find_stmt(fn, lambda s: isinstance(s, ast.For) and norm(s.iter) == "current.__bases__")
+    return replace_node(mod, lp.iter, 'getattr(current, "__orig_bases__", current.__bases__)')
+
+
+@variant("C25", "twin-edges-from-own-orig-bases", MODM, None, "the class's own __orig_bases__ read from its __dict__ stays silent")
+def _v33(repo, mod):
+    fn = repo.func(MODM, "__analyse_included_classes")
+    lp = find_stmt(fn, lambda s: isinstance(s, ast.For) and norm(s.iter) == "current.__bases__")
+    return replace_node(mod, lp.iter, 'current.__dict__.get("__orig_bases__", current.__bases__) and current.__bases__')
